@@ -28,11 +28,11 @@ import (
 
 // Case is one routed swap under test; it is the unit of replay.
 type Case struct {
-	Kind    string   `json:"kind"`             // "in" exact-in, "out" exact-out
-	Route   Route    `json:"route,omitempty"`  // single route
-	Legs    []Route  `json:"legs,omitempty"`   // split route (two pool-disjoint legs)
-	Amounts []string `json:"amounts"`          // literal amounts, one per leg
-	Tag     string   `json:"amount_tag"`       // normalised amount for the signature: 1, 1000, 1000000, 30%
+	Kind    string   `json:"kind"`            // "in" exact-in, "out" exact-out
+	Route   Route    `json:"route,omitempty"` // single route
+	Legs    []Route  `json:"legs,omitempty"`  // split route (two pool-disjoint legs)
+	Amounts []string `json:"amounts"`         // literal amounts, one per leg
+	Tag     string   `json:"amount_tag"`      // normalised amount for the signature: 1, 1000, 1000000, 30%
 }
 
 func (c Case) split() bool { return len(c.Legs) > 0 }
